@@ -438,6 +438,13 @@ type Contract struct {
 	Notes    []string
 	Uses     []*Expr
 	Implements []string
+	ExactEmits bool // the declared emits are exactly the function's own activation trace (checked)
+	Asserts    []*MidAssert
+}
+
+type MidAssert struct {
+	N  int
+	Cl *Clause
 }
 
 type SpecFunc struct {
@@ -767,6 +774,30 @@ func (c *Contract) addClause(word, rest string) error {
 			return fmt.Errorf("uses expects AXIOM(args)")
 		}
 		c.Uses = append(c.Uses, e)
+	case "exactemits":
+		c.ExactEmits = true
+	case "after":
+		// after N[-M] assert expr : intermediate assertion checked (and then assumed) after the N-th call instruction
+		f := strings.SplitN(rest, " ", 3)
+		if len(f) < 3 || f[1] != "assert" {
+			return fmt.Errorf("expected: after N[-M] assert expr")
+		}
+		lo, hi := 0, 0
+		if i := strings.Index(f[0], "-"); i >= 0 {
+			lo, _ = strconv.Atoi(f[0][:i])
+			hi, _ = strconv.Atoi(f[0][i+1:])
+		} else {
+			lo, _ = strconv.Atoi(f[0])
+			hi = lo
+		}
+		tags, body := parseTags(f[2])
+		e, err := ParseExpr(body)
+		if err != nil {
+			return err
+		}
+		for n := lo; n <= hi; n++ {
+			c.Asserts = append(c.Asserts, &MidAssert{N: n, Cl: &Clause{Tags: tags, E: e, Text: body}})
+		}
 	case "implements":
 		for _, t := range strings.Split(rest, ",") {
 			c.Implements = append(c.Implements, strings.TrimSpace(t))
